@@ -478,6 +478,7 @@ class RlWriter:
     def writeBook(self, output, coverimage=None, status_callback=None):
         self.numarticles = len(self.env.metabook.get_articles())
         self.articlecount = 0
+        self.license_mode = False  # left set by renderLicense when a first pass failed
         self.getArticleIDs()
 
         if status_callback:
